@@ -60,6 +60,9 @@ static void build_bitmap(void)
 {
 	LOAD_IN();
 	ASSUME(IN.start <= IN.end && IN.end <= IN.real_end);
+#ifdef BA_PROBE_START01
+	ASSUME(IN.start <= 1);
+#endif
 	ASSUME(IN.real_end - IN.start < BA_MAX_BITS);
 	ASSUME(IN.misalign < 8);
 	NBYTES = ((IN.real_end - IN.start) / 8) + 1;
